@@ -171,6 +171,7 @@ def map(
                     "params": layer.kwargs,
                     "unit": layer.data.unit,
                     "name": layer.data.name,
+                    "operation": layer.operation,
                 }
             )
 
@@ -268,7 +269,10 @@ def map(
 
     scalar_layer = []
     to_binning = []  # contains the variables in cells close to the plane
+    operations = []  # the operation along depth for each entry of to_binning
     for ind in range(len(to_process)):
+        nrows = 3 if to_render[ind]["mode"] in ["vec", "stream", "lic"] else 1
+        operations += [to_render[ind]["operation"]] * nrows
         if to_render[ind]["mode"] in ["vec", "stream", "lic"]:
             uv = to_process[ind][indices_close_to_plane]
             if to_process[ind].z is None:
@@ -386,14 +390,19 @@ def map(
         ndim=ndim,
     )
 
-    # Apply operation along depth
-    binned = getattr(np, operation)(binned, axis=1)
+    # Apply each layer's operation along depth
+    binned = np.array(
+        [getattr(np, op)(binned[i], axis=0) for i, op in enumerate(operations)]
+    )
 
     # Handle thick maps
-    if thick and ((operation == "sum") or (operation == "nansum")):
-        binned *= zspacing
+    if thick:
+        for i, op in enumerate(operations):
+            if op in ("sum", "nansum"):
+                binned[i] *= zspacing
         for layer in to_render:
-            layer["unit"] = layer["unit"] * dataz.unit
+            if layer["operation"] in ("sum", "nansum"):
+                layer["unit"] = layer["unit"] * dataz.unit
 
     # Mask NaN values
     mask = np.isnan(binned[-1, ...])
